@@ -1,7 +1,459 @@
-import PsutilModel.Proofs.C15
+/-
+  Props/C15.lean — property theorems for C15 (wait / wait_procs). Only statements the property
+  makes; helper lemmas live in Proofs/C15*.lean.
+
+  `cfg` is built from Generated/C15.lean, which the translator rewrites from /repo's source on
+  every run; `cfg_good` is the proof obligation that breaks when the constants 0.0001 / 2 / 0.04,
+  the check-before-sleep order, the `>=` of the deadline check, the `>= 0` validation of
+  `Process.wait` or the `1.0 / len(alive)` slice of `wait_procs` change.
+
+  Every theorem quantifies over ALL environments (child with any status word / non-child /
+  never existed; any exit instant or none; any EINTR pattern), all timeouts, start instants and
+  fuel; "the call returns" = the fuelled run ends in something else than `outOfFuel`.
+-/
+import Mathlib.Data.Rat.Floor
+import PsutilModel.Proofs.C15Procs
 import PsutilModel.Model.C15Gen
 namespace Psutil.C15
+open Spec
 
 theorem cfg_good : cfg.Good := by constructor <;> decide
+
+/-- what a caller observes of one `wait_pid(pid, timeout)` started at `now` -/
+def obsWait (env : Env) (pid : Nat) (timeout : Option Rat) (fuel : Nat) (now : Rat) (nWait : Nat) : Obs :=
+  ⟨(waitPid cfg env pid timeout fuel now nWait).1, (waitPid cfg env pid timeout fuel now nWait).2.now,
+   (waitPid cfg env pid timeout fuel now nWait).2.sleeps⟩
+
+/-- what a caller observes of one `Process.wait(timeout)` started at `now` on object `p` -/
+def obsProc (env : Env) (timeout : Option Rat) (fuel : Nat) (now : Rat) (p : PObj) : Obs :=
+  ⟨(procWait cfg env timeout fuel now p).out, (procWait cfg env timeout fuel now p).now,
+   (procWait cfg env timeout fuel now p).sleeps⟩
+
+/-- `Process.wait` on an object without a stored exit code, with an acceptable timeout, is `wait_pid` -/
+theorem obsProc_eq_obsWait (env : Env) (timeout : Option Rat) (fuel : Nat) (now : Rat) (p : PObj)
+    (hc : p.exitcode = none) (hn : negative timeout = false) :
+    obsProc env timeout fuel now p = obsWait env p.pid timeout fuel now p.nWait := by
+  simp [obsProc, obsWait, procWait_fresh env timeout fuel now p hc hn]
+
+/-! ## one call -/
+
+/-- never early: an exit status / None is returned only once the process has really ended; an
+    exit status only for a child, None only for a non-child -/
+theorem C15_never_early (env : Env) (pid : Nat) (timeout : Option Rat) (fuel : Nat) (now : Rat) (nWait : Nat) :
+    neverEarly ⟨env, pid, timeout, now⟩ (obsWait env pid timeout fuel now nWait) := by
+  have h := waitPid_neverEarly cfg_good env pid timeout fuel now nWait
+  unfold neverEarly obsWait
+  simp only
+  split
+  · rename_i cc hc; exact h.1 cc hc
+  · rename_i hc; exact h.2 hc
+  · trivial
+
+/-- the decoding chain inverts the kernel's encoding: `exit(c)` ↦ c for all 0 ≤ c ≤ 255, killed by
+    signal s ↦ −s for all 1 ≤ s ≤ 126, core dump flag or not -/
+theorem C15_status_decode (cause : Cause) (hv : cause.Valid) :
+    decode cause.status = .code cause.value := decode_status hv
+
+/-- … hence a child that ended by `cause` makes `wait` return `cause.value` -/
+theorem C15_right_status (env : Env) (pid : Nat) (timeout : Option Rat) (fuel : Nat) (now : Rat) (nWait : Nat) :
+    rightStatus ⟨env, pid, timeout, now⟩ (obsWait env pid timeout fuel now nWait) := by
+  unfold rightStatus obsWait
+  simp only
+  split
+  · rename_i st cc hk ho
+    intro cause hm hs
+    obtain ⟨st', hk', hd⟩ := waitPid_decode cfg_good env pid timeout fuel now nWait cc ho
+    rw [hk] at hk'; cases hk'
+    have := decode_status (mem_allCauses.1 hm)
+    rw [hs, hd] at this
+    cases this; rfl
+  · trivial
+
+/-- a PID that never existed: None at once, zero sleeps -/
+theorem C15_never_existed_at_once (env : Env) (pid : Nat) (timeout : Option Rat) (fuel : Nat) (now : Rat)
+    (nWait : Nat) (hp : 0 < pid) (he : env.eintr nWait = false) (hf : 1 ≤ fuel) :
+    neverExistedAtOnce ⟨env, pid, timeout, now⟩ (obsWait env pid timeout fuel now nWait) true := by
+  intro hk _
+  exact waitPid_neverExisted env pid timeout fuel now nWait hk hp he hf
+
+/-- index of the last `os.waitpid` call the run made -/
+def lastCall (env : Env) (pid : Nat) (timeout : Option Rat) (fuel : Nat) (now : Rat) (nWait : Nat) : Nat :=
+  (waitPid cfg env pid timeout fuel now nWait).2.nWait - 1
+
+/-- FULL statement: TimeoutExpired(seconds = timeout, pid) is raised only if the deadline has
+    passed with the process still alive — for every EINTR pattern. FALSE of the code, see
+    `C15_timeout_sound_counterexample`. -/
+def C15_timeout_sound_Full : Prop :=
+  ∀ (env : Env) (pid : Nat) (timeout : Option Rat) (fuel : Nat) (now : Rat) (nWait : Nat),
+    timeoutSound ⟨env, pid, timeout, now⟩ (obsWait env pid timeout fuel now nWait)
+
+/-- proved part: whenever the LAST waitpid call of the run was not interrupted (in particular: on
+    a kernel that never interrupts a WNOHANG waitpid) -/
+theorem C15_timeout_sound_partial (env : Env) (pid : Nat) (timeout : Option Rat) (fuel : Nat) (now : Rat)
+    (nWait : Nat) (hne : env.eintr (lastCall env pid timeout fuel now nWait) = false) :
+    timeoutSound ⟨env, pid, timeout, now⟩ (obsWait env pid timeout fuel now nWait) := by
+  unfold timeoutSound obsWait
+  simp only
+  split
+  · rename_i sec p ho
+    obtain ⟨h1, h2, h3, h4⟩ := waitPid_timeoutSound cfg_good env pid timeout fuel now nWait sec p ho
+    exact ⟨h1, h2, h3, h4 hne⟩
+  · trivial
+
+/-- … and, interrupted or not: the exception carries `seconds = timeout` and the pid, and is
+    raised at or after the deadline -/
+theorem C15_timeout_fields (env : Env) (pid : Nat) (timeout : Option Rat) (fuel : Nat) (now : Rat)
+    (nWait : Nat) (sec : Rat) (p : Nat)
+    (h : (obsWait env pid timeout fuel now nWait).out = .timeout sec p) :
+    timeout = some sec ∧ p = pid ∧ now + sec ≤ (obsWait env pid timeout fuel now nWait).ret := by
+  obtain ⟨h1, h2, h3, _⟩ := waitPid_timeoutSound cfg_good env pid timeout fuel now nWait sec p h
+  exact ⟨h1, h2, h3⟩
+
+/-- the environment of the counterexample: a child that ended at instant 0 with `exit(0)`; the
+    first waitpid call is interrupted -/
+def witnessEnv : Env := ⟨.child 0, some 0, fun n => n == 0⟩
+
+theorem witness_run {c : Cfg} (hg : c.Good) : (waitPid c witnessEnv 7 (some 0) 5 1 0).1 = .timeout 0 7 ∧
+    (waitPid c witnessEnv 7 (some 0) 5 1 0).2.now = 1 := by
+  simp [waitPid, waitLoop, witnessEnv, sleepStep, pastDeadline, hg.check, hg.ge]
+
+/-- counterexample (replayed on the real code by the harness, finding C15-eintr-deadline):
+    `wait(timeout=0)` at instant 1 on a child dead since instant 0 raises TimeoutExpired when its
+    only poll is interrupted -/
+theorem C15_timeout_sound_counterexample : ¬ C15_timeout_sound_Full := by
+  intro h
+  have h1 := h witnessEnv 7 (some 0) 5 1 0
+  obtain ⟨r1, r2⟩ := witness_run cfg_good
+  unfold timeoutSound obsWait at h1
+  simp only [r1, r2] at h1
+  exact h1.2.2.2 (Or.inr (by simp [witnessEnv]))
+
+/-- at most one 40 ms poll late -/
+theorem C15_at_most_one_poll_late (env : Env) (pid : Nat) (timeout : Option Rat) (fuel : Nat) (now : Rat)
+    (nWait : Nat) : onePollLate ⟨env, pid, timeout, now⟩ (obsWait env pid timeout fuel now nWait) := by
+  unfold onePollLate obsWait
+  simp only
+  split
+  · rename_i sec p ho
+    intro h0
+    obtain ⟨h1, _, _, _⟩ := waitPid_timeoutSound cfg_good env pid timeout fuel now nWait sec p ho
+    exact waitPid_bound cfg_good env pid timeout fuel now nWait sec h1 h0
+  · trivial
+
+/-- … in fact with a timeout τ ≥ 0 the call comes back, whatever the result, before τ + 40 ms -/
+theorem C15_returns_before_deadline_plus_poll (env : Env) (pid : Nat) (τ : Rat) (fuel : Nat) (now : Rat)
+    (nWait : Nat) (h0 : 0 ≤ τ) : (obsWait env pid (some τ) fuel now nWait).ret < now + τ + Spec.cap :=
+  waitPid_bound cfg_good env pid (some τ) fuel now nWait τ rfl h0
+
+/-- the n-th sleep is min (0.0001 · 2ⁿ) 0.04: starts at 0.1 ms, doubles, never exceeds 40 ms -/
+theorem C15_intervals (env : Env) (pid : Nat) (timeout : Option Rat) (fuel : Nat) (now : Rat) (nWait : Nat) :
+    intervalsOk (obsWait env pid timeout fuel now nWait) := by
+  unfold intervalsOk obsWait
+  simp only
+  intro p hp
+  have := waitPid_intervals cfg_good env pid timeout fuel now nWait p.2 p.1
+  exact this (List.mem_zipIdx_iff_getElem?.1 hp)
+
+theorem C15_interval_values : iv 0 = 1 / 10000 ∧ iv 1 = 1 / 5000 ∧ iv 8 = 16 / 625 ∧ iv 9 = 1 / 25 ∧
+    ∀ n, iv n ≤ 1 / 25 ∧ 1 / 10000 ≤ iv n := by
+  refine ⟨by norm_num [iv, pow2, rmin, Spec.i0, Spec.cap], by norm_num [iv, pow2, rmin, Spec.i0, Spec.cap],
+    by norm_num [iv, pow2, rmin, Spec.i0, Spec.cap], by norm_num [iv, pow2, rmin, Spec.i0, Spec.cap], fun n => ?_⟩
+  have h1 := iv_le_cap n
+  have h2 := i0_le_iv n
+  simp only [Spec.cap, Spec.i0] at h1 h2
+  exact ⟨h1, h2⟩
+
+theorem C15_timeout_zero_never_sleeps (env : Env) (pid : Nat) (timeout : Option Rat) (fuel : Nat) (now : Rat)
+    (nWait : Nat) : zeroNeverSleeps ⟨env, pid, timeout, now⟩ (obsWait env pid timeout fuel now nWait) := by
+  intro ht
+  exact (waitPid_zeroTimeout cfg_good env pid timeout fuel now nWait 0 ht (le_refl _)).1
+
+/-- `Process.wait`: a negative timeout raises ValueError (before anything else happens) -/
+theorem C15_negative_ValueError (env : Env) (timeout : Option Rat) (fuel : Nat) (now : Rat) (p : PObj) :
+    negativeIsValueError ⟨env, p.pid, timeout, now⟩ (obsProc env timeout fuel now p) ∧
+    (negative timeout = true → (procWait cfg env timeout fuel now p).obj = p) := by
+  constructor
+  · intro h
+    simp [obsProc, procWait_negative cfg_good env timeout fuel now p h]
+  · intro h
+    simp [procWait_negative cfg_good env timeout fuel now p h]
+
+/-- cached: once a call has given a result, every later call on the same object — whatever the
+    environment, timeout (≥ 0 or None) and instant — gives the stored value at once, with no
+    sleep and no waitpid call -/
+theorem C15_cached (env env' : Env) (t1 t2 : Option Rat) (f1 f2 : Nat) (now1 now2 : Rat) (p : PObj)
+    (h2 : negative t2 = false)
+    (hres : ∃ v, (procWait cfg env t1 f1 now1 p).out.value? = some v) :
+    let q := (procWait cfg env t1 f1 now1 p).obj
+    cachedOk (procWait cfg env t1 f1 now1 p).out (obsProc env' t2 f2 now2 q) now2
+      ((procWait cfg env' t2 f2 now2 q).obj.nWait - q.nWait) ∧
+    (procWait cfg env' t2 f2 now2 q).obj = q := by
+  obtain ⟨v, hv⟩ := hres
+  -- the first call stored `v`
+  have hq : (procWait cfg env t1 f1 now1 p).obj.exitcode = some v ∧
+      Outcome.ofValue v = (procWait cfg env t1 f1 now1 p).out := by
+    unfold procWait at hv ⊢
+    split
+    · rename_i hneg; simp [hneg] at hv; simp [Outcome.value?] at hv
+    · rename_i hneg
+      cases hx : p.exitcode with
+      | some v' =>
+        simp [hneg, hx] at hv ⊢
+        cases v' <;> simp [Outcome.ofValue, Outcome.value?] at hv ⊢ <;> subst hv <;> simp
+      | none =>
+        simp [hneg, hx] at hv ⊢
+        exact ⟨hv, ofValue_value? _ v hv⟩
+  intro q
+  have e := procWait_cached (c := cfg) env' t2 f2 now2 q v hq.1 h2
+  refine ⟨?_, by rw [e]⟩
+  unfold cachedOk obsProc
+  rw [e, ← hq.2]
+  cases v <;> simp [Outcome.ofValue]
+
+/-- FULL statement: an EINTR pattern changes the sleep log only, never the result. FALSE of the
+    code (same witness: without the interruption the call returns 0). -/
+def C15_eintr_harmless_Full : Prop :=
+  ∀ (env : Env) (e' : Nat → Bool) (pid : Nat) (timeout : Option Rat) (fuel : Nat) (now : Rat) (nWait : Nat),
+    let o1 := (waitPid cfg env pid timeout fuel now nWait).1
+    let o2 := (waitPid cfg { env with eintr := e' } pid timeout fuel now nWait).1
+    o1 ≠ .outOfFuel → o1 ≠ .hang → o2 ≠ .outOfFuel → o2 ≠ .hang → o1 = o2
+
+/-- proved part: two runs that differ only in the EINTR pattern and both give a result (exit
+    status / None) give the same one — an interruption can delay a result or (the finding) turn it
+    into TimeoutExpired at the deadline, never change it -/
+theorem C15_eintr_harmless_partial (env : Env) (e' : Nat → Bool) (pid : Nat) (t t' : Option Rat)
+    (fuel fuel' : Nat) (now now' : Rat) (nWait nWait' : Nat) (v v' : Option Int)
+    (h1 : (waitPid cfg env pid t fuel now nWait).1.value? = some v)
+    (h2 : (waitPid cfg { env with eintr := e' } pid t' fuel' now' nWait').1.value? = some v') :
+    v = v' := by
+  have s1 := waitPid_shape cfg_good env pid t fuel now nWait
+  have s2 := waitPid_shape cfg_good { env with eintr := e' } pid t' fuel' now' nWait'
+  have key : ∀ (o : Outcome) (w : Option Int), o.value? = some w →
+      (o = .outOfFuel ∨ o = .hang ∨ (∃ sec p, o = .timeout sec p) ∨ (pid = 0 ∧ o = .valueError) ∨
+        (∃ st, env.kind = .child st ∧ o = decode st) ∨ ((∀ st, env.kind ≠ .child st) ∧ o = .none)) →
+      (∃ st, env.kind = .child st ∧ decode st = Outcome.ofValue w) ∨
+      ((∀ st, env.kind ≠ .child st) ∧ w = none) := by
+    intro o w hw hs
+    rcases hs with h | h | ⟨_, _, h⟩ | ⟨_, h⟩ | ⟨st, hk, h⟩ | ⟨hk, h⟩
+    · rw [h] at hw; simp [Outcome.value?] at hw
+    · rw [h] at hw; simp [Outcome.value?] at hw
+    · rw [h] at hw; simp [Outcome.value?] at hw
+    · rw [h] at hw; simp [Outcome.value?] at hw
+    · left; exact ⟨st, hk, by rw [← h]; exact (ofValue_value? o w hw).symm⟩
+    · right; refine ⟨hk, ?_⟩; rw [h] at hw; simp [Outcome.value?] at hw; exact hw.symm
+  rcases key _ v h1 s1 with ⟨st, hk, hd⟩ | ⟨hk, hv⟩ <;>
+    rcases key _ v' h2 s2 with ⟨st', hk', hd'⟩ | ⟨hk', hv'⟩
+  · rw [hk] at hk'; cases hk'
+    rw [hd] at hd'
+    cases v <;> cases v' <;> simp [Outcome.ofValue] at hd' ⊢
+    exact hd'
+  · exact absurd hk (hk' st)
+  · exact absurd hk' (hk st')
+  · rw [hv, hv']
+
+/-- without a timeout (blocking waitpid — the only call a Linux kernel ever interrupts) the full
+    statement holds: whatever the EINTR patterns, two runs that come back give the same outcome -/
+theorem C15_eintr_harmless_blocking (env : Env) (e' : Nat → Bool) (pid : Nat) (fuel fuel' : Nat)
+    (now now' : Rat) (nWait nWait' : Nat)
+    (h1 : (waitPid cfg env pid none fuel now nWait).1 ≠ .outOfFuel)
+    (h1' : (waitPid cfg env pid none fuel now nWait).1 ≠ .hang)
+    (h2 : (waitPid cfg { env with eintr := e' } pid none fuel' now' nWait').1 ≠ .outOfFuel)
+    (h2' : (waitPid cfg { env with eintr := e' } pid none fuel' now' nWait').1 ≠ .hang) :
+    (waitPid cfg env pid none fuel now nWait).1 =
+      (waitPid cfg { env with eintr := e' } pid none fuel' now' nWait').1 := by
+  by_cases hp : pid = 0
+  · rw [waitPid_zero env pid none fuel now nWait hp, waitPid_zero _ pid none fuel' now' nWait' hp]
+  have s1 := waitPid_shape cfg_good env pid none fuel now nWait
+  have s2 := waitPid_shape cfg_good { env with eintr := e' } pid none fuel' now' nWait'
+  have t1 : ∀ sec p, (waitPid cfg env pid none fuel now nWait).1 ≠ .timeout sec p := by
+    intro sec p h
+    have := (waitPid_timeoutSound cfg_good env pid none fuel now nWait sec p h).1
+    cases this
+  have t2 : ∀ sec p, (waitPid cfg { env with eintr := e' } pid none fuel' now' nWait').1 ≠ .timeout sec p := by
+    intro sec p h
+    have := (waitPid_timeoutSound cfg_good _ pid none fuel' now' nWait' sec p h).1
+    cases this
+  rcases s1 with h | h | ⟨sec, p, h⟩ | ⟨hp', _⟩ | ⟨st, hk, h⟩ | ⟨hk, h⟩
+  · exact absurd h h1
+  · exact absurd h h1'
+  · exact absurd h (t1 sec p)
+  · exact absurd hp' hp
+  · rcases s2 with g | g | ⟨sec, p, g⟩ | ⟨hp', _⟩ | ⟨st', hk', g⟩ | ⟨hk', g⟩
+    · exact absurd g h2
+    · exact absurd g h2'
+    · exact absurd g (t2 sec p)
+    · exact absurd hp' hp
+    · simp only at hk'; rw [hk] at hk'; cases hk'; rw [h, g]
+    · exact absurd hk (hk' st)
+  · rcases s2 with g | g | ⟨sec, p, g⟩ | ⟨hp', _⟩ | ⟨st', hk', g⟩ | ⟨hk', g⟩
+    · exact absurd g h2
+    · exact absurd g h2'
+    · exact absurd g (t2 sec p)
+    · exact absurd hp' hp
+    · exact absurd hk' (hk st')
+    · rw [h, g]
+
+theorem witness_clean_run (c : Cfg) :
+    (waitPid c { witnessEnv with eintr := fun _ => false } 7 (some 0) 5 1 0).1 = .code 0 := by
+  simp [waitPid, waitLoop, witnessEnv, Env.ended, decode, wifexited, wtermsig, wexitstatus]
+
+theorem C15_eintr_harmless_counterexample : ¬ C15_eintr_harmless_Full := by
+  intro h
+  have h1 := h witnessEnv (fun _ => false) 7 (some 0) 5 1 0
+  simp only [(witness_run cfg_good).1, witness_clean_run cfg] at h1
+  exact absurd (h1 (by simp) (by simp) (by simp) (by simp)) (by simp)
+
+/-- termination given a timeout: ⌈τ / 0.0001⌉ + 2 iterations always suffice (every iteration
+    that goes on advances the clock by ≥ 0.1 ms, and goes on only before the deadline); a call
+    with a timeout never blocks in waitpid either -/
+theorem C15_terminates_with_timeout (env : Env) (pid : Nat) (τ : Rat) (fuel : Nat) (now : Rat) (nWait : Nat)
+    (hf : ⌈τ * 10000⌉₊ + 2 ≤ fuel) :
+    comesBack ⟨env, pid, some τ, now⟩ (obsWait env pid (some τ) fuel now nWait) := by
+  intro _
+  refine ⟨waitPid_noHang cfg_good env pid (some τ) fuel now nWait τ rfl, ?_⟩
+  apply waitPid_terminates cfg_good env pid (some τ) fuel now nWait τ rfl (by omega)
+  have := Nat.le_ceil (τ * 10000)
+  have h2 : ((⌈τ * 10000⌉₊ + 2 : ℕ) : ℚ) ≤ fuel := by exact_mod_cast hf
+  push_cast at h2
+  simp only [Spec.i0]
+  linarith
+
+/-! ## `wait_procs` -/
+
+/-- what a caller observes of `wait_procs` -/
+def obsProcs (w' : WP) (alive' : List Nat) : WPObs :=
+  ⟨w'.gone, alive', fun p => (w'.objs p).returncode, w'.cbLog, w'.now⟩
+
+section
+variable (envOf : Nat → Env) (procs : List Nat) (timeout : Option Rat) (hasCb : Bool)
+  (order : Nat → List Nat → List Nat) (fuel : Nat) (w w' : WP) (alive' : List Nat)
+  (hperm : ∀ k l, (order k l).Perm l)            -- Python may iterate a set in any order
+  (hf : Fresh envOf w)                           -- nothing gone yet; stored exit codes are true ones
+  (h : waitProcs cfg envOf procs timeout hasCb order fuel w = .ok (w', alive'))
+include hperm hf h
+
+/-- gone and alive are disjoint, duplicate-free, and together are exactly the processes handed in -/
+theorem C15_wait_procs_partition :
+    partitionOk ⟨envOf, procs, timeout, w.now, hasCb⟩ (obsProcs w' alive') := by
+  obtain ⟨⟨hi, hnd, hmem⟩, _, _, _⟩ :=
+    waitProcs_inv cfg_good envOf hasCb fuel order hperm procs timeout w w' alive' hf h
+  unfold partitionOk obsProcs
+  simp only
+  refine ⟨?_, fun pid => ?_⟩
+  · rw [List.nodup_append]
+    refine ⟨hi.nodup, hnd, fun a ha b hb e => ?_⟩
+    subst e
+    exact ((hmem a).1 hb).2 ha
+  · rw [List.mem_append]
+    constructor
+    · rintro (hg | ha)
+      · exact mem_dedup.1 (hi.sub pid hg)
+      · exact mem_dedup.1 ((hmem pid).1 ha).1
+    · intro hp
+      by_cases hg : pid ∈ w'.gone
+      · exact Or.inl hg
+      · exact Or.inr ((hmem pid).2 ⟨mem_dedup.2 hp, hg⟩)
+
+/-- the callback is called exactly once for each gone process (in the order they were found
+    gone) and for nothing else -/
+theorem C15_callback_once :
+    callbackOnce ⟨envOf, procs, timeout, w.now, hasCb⟩ (obsProcs w' alive') ∧
+    w'.cbLog = (if hasCb then w'.gone else []) := by
+  obtain ⟨⟨hi, _, _⟩, _, _, _⟩ :=
+    waitProcs_inv cfg_good envOf hasCb fuel order hperm procs timeout w w' alive' hf h
+  refine ⟨?_, hi.cb⟩
+  unfold callbackOnce obsProcs
+  simp only
+  rw [hi.cb]
+  cases hasCb
+  · simp
+  · simp only [if_true]
+    exact ⟨hi.nodup, fun _ hp => hp, fun _ hp => hp⟩
+
+/-- every gone process has `returncode` set — to the value of the cause its status word encodes
+    (a child), to None (not a child) — and it is the value `wait()` stored -/
+theorem C15_returncode_set :
+    returncodeSet ⟨envOf, procs, timeout, w.now, hasCb⟩ (obsProcs w' alive') ∧
+    ∀ pid ∈ w'.gone, (w'.objs pid).returncode = (w'.objs pid).exitcode ∧ (w'.objs pid).exitcode ≠ none := by
+  obtain ⟨⟨hi, _, _⟩, _, _, _⟩ :=
+    waitProcs_inv cfg_good envOf hasCb fuel order hperm procs timeout w w' alive' hf h
+  constructor
+  · unfold returncodeSet obsProcs
+    simp only
+    intro pid hp
+    obtain ⟨v, h1, h2⟩ := hi.rc pid hp
+    obtain ⟨⟨r1, r2⟩, _⟩ := hi.cache pid v h2
+    rw [h1]
+    cases hk : (envOf pid).kind with
+    | child st =>
+      simp only
+      intro cause hm hs
+      cases v with
+      | none => exact absurd (isChild_iff.2 ⟨st, hk⟩) (r2 rfl)
+      | some cc =>
+        obtain ⟨st', hk', hd⟩ := r1 cc rfl
+        rw [hk] at hk'; cases hk'
+        have := decode_status (mem_allCauses.1 hm)
+        rw [hs, hd] at this
+        cases this; rfl
+    | nonChild =>
+      simp only
+      cases v with
+      | none => rfl
+      | some cc => obtain ⟨st', hk', _⟩ := r1 cc rfl; rw [hk] at hk'; cases hk'
+    | neverExisted =>
+      simp only
+      cases v with
+      | none => rfl
+      | some cc => obtain ⟨st', hk', _⟩ := r1 cc rfl; rw [hk] at hk'; cases hk'
+  · intro pid hp
+    obtain ⟨v, h1, h2⟩ := hi.rc pid hp
+    rw [h1, h2]; simp
+
+/-- every process reported gone had really ended by the time `wait_procs` returned -/
+theorem C15_wait_procs_gone_ended :
+    goneEnded ⟨envOf, procs, timeout, w.now, hasCb⟩ (obsProcs w' alive') := by
+  obtain ⟨⟨hi, _, _⟩, _, _, _⟩ :=
+    waitProcs_inv cfg_good envOf hasCb fuel order hperm procs timeout w w' alive' hf h
+  intro pid hp
+  obtain ⟨v, _, h2⟩ := hi.rc pid hp
+  exact (hi.cache pid v h2).2
+
+/-- returns before start + timeout + one 40 ms poll (and never before it started) -/
+theorem C15_wait_procs_deadline :
+    deadlineOk ⟨envOf, procs, timeout, w.now, hasCb⟩ (obsProcs w' alive') ∧ w.now ≤ w'.now := by
+  obtain ⟨_, hm, hd, _⟩ :=
+    waitProcs_inv cfg_good envOf hasCb fuel order hperm procs timeout w w' alive' hf h
+  refine ⟨?_, hm⟩
+  unfold deadlineOk obsProcs
+  simp only
+  cases timeout with
+  | some τ => simp only; intro _; exact hd τ rfl
+  | none => trivial
+
+/-- without a timeout `wait_procs` returns only when nothing is left alive -/
+theorem C15_wait_procs_no_timeout_all_gone :
+    noTimeoutAllGone ⟨envOf, procs, timeout, w.now, hasCb⟩ (obsProcs w' alive') := by
+  obtain ⟨_, _, _, hn⟩ :=
+    waitProcs_inv cfg_good envOf hasCb fuel order hperm procs timeout w w' alive' hf h
+  exact hn
+
+end
+
+/-- a negative timeout makes `wait_procs` raise ValueError before touching anything -/
+theorem C15_wait_procs_negative (envOf : Nat → Env) (procs : List Nat) (τ : Rat) (hasCb : Bool)
+    (order : Nat → List Nat → List Nat) (fuel : Nat) (w : WP) (hτ : τ < 0) :
+    waitProcs cfg envOf procs (some τ) hasCb order fuel w = .error .valueError := by
+  simp [waitProcs, negative, hτ]
+
+/-! ## the hypotheses are satisfiable -/
+
+/-- objects that have never been waited for form a fresh state -/
+example (envOf : Nat → Env) (now : Rat) :
+    Fresh envOf ⟨now, fun pid => ⟨pid, none, 0, none⟩, [], [], [], []⟩ :=
+  ⟨rfl, rfl, fun _ _ h => by cases h⟩
+
+/-- the identity is an admissible iteration order -/
+example : ∀ (k : Nat) (l : List Nat), ((fun _ l => l) k l : List Nat).Perm l := fun _ l => List.Perm.refl l
 
 end Psutil.C15
